@@ -321,6 +321,12 @@ func servePrincipalPropfind(w http.ResponseWriter, r *http.Request, options *Ser
 	if err != nil {
 		return err
 	}
+	// the principal has no members: any valid Depth gives the same answer
+	if s := r.Header.Get("Depth"); s != "" {
+		if _, err := internal.ParseDepth(s); err != nil {
+			return &internal.HTTPError{Code: http.StatusBadRequest, Err: err}
+		}
+	}
 	props := map[xml.Name]internal.PropFindFunc{
 		internal.ResourceTypeName: func(*internal.RawXMLValue) (interface{}, error) {
 			return internal.NewResourceType(principalName), nil
